@@ -120,7 +120,7 @@ macro_rules! space_dest_checks {
 
 pub fn run(mut run: Run) -> i32 {
     let quick = run.ctx.quick();
-    run.rule = "all ordered pairs of a lon/lat lattice (quick 15 deg, thorough 5 deg; lon -180..180, lat -75/-80..75/80) plus, for every lattice point, 8 neighbours at 1e-6 deg and cross-antimeridian partners, in Haversine, Geodesic, Rhumb and custom sphere/ellipsoid measures: \
+    run.rule = "all ordered pairs of a lon/lat lattice (quick 10 deg, thorough 4 deg; lon -180..180, lat -80..80) plus, for every lattice point, 8 neighbours at 1e-6 deg and cross-antimeridian partners, in Haversine, Geodesic, Rhumb and custom sphere/ellipsoid measures: \
         destination(a, bearing(a,b), distance(a,b)) within 1 mm of b (pairs within ~2% of antipodal excluded), symmetry within 1 um, non-negativity, d(a,a)=0, point_at_ratio_between divides the distance, line-string length = sum, bearing in [0,360), outputs in lon/lat range; \
         destination for bearings {-90,0,45,123,359.999,360,450} x distances {0,1,1e5,1e6,-1000}: periodicity, negative distance, travelled distance; distinct = (space, separation class)"
         .into();
@@ -128,8 +128,8 @@ pub fn run(mut run: Run) -> i32 {
         "identities on a lattice say nothing between lattice points; exhaustive for the stated lattice only".into(),
         "tolerances are scaled by radius/earth radius for the custom measures".into(),
     ];
-    let step = if quick { 15.0 } else { 5.0 };
-    let latmax = if quick { 75.0 } else { 80.0 };
+    let step = if quick { 10.0 } else { 4.0 };
+    let latmax = 80.0;
     let mut pts: Vec<(f64, f64)> = vec![];
     let mut lon = -180.0;
     while lon <= 180.0 {
